@@ -170,6 +170,16 @@ def _install_private(g: GCodeBuilder, pre) -> None:
 
 def _install_public(g: GCodeBuilder, pre) -> None:
     try:
+        # limits are configured twice, as users do: generous ones first (so that every value of the
+        # history passes through the validators), the requested ones at the end
+        wide = 1.0e9
+        for name in pre["bounds"]:
+            if name == "axes":
+                g.set_bounds(name, (-wide, -wide, -wide), (wide, wide, wide))
+            elif name == "tool-number":
+                g.set_bounds(name, 0, 1000000)
+            else:
+                g.set_bounds(name, -wide, wide)
         if pre["extrusion"] != "absolute":
             g.set_extrusion_mode(pre["extrusion"])
         if pre["tool_swap"] != "off":
